@@ -148,6 +148,8 @@ func c18GenArchive(t *rapid.T) ([]byte, string) {
 			// member names that begin like the magic number of another format
 			"BMW/readme.txt", "BM", "ID3v2-tags.md", "II*\x00.tif", "MM\x00*", "GIF89a.txt", "fLaC.notes", "MThd", "FORM", ".snd", "8BPS.psd", "%PDF-notes", "MZ.exe", "OggS", "RIFF", "xar!", "BZh91", "SIMPLE", "wOFF", "Rar!", "070707", "#!AMR", "MAC ", "MPCK", "FLV", "CWS", "icns", "PAR1", "d8:announce", "ftyp", "\x00\x00\x01\x00", "wOF2", "OTTO", "ttcf", "LZIP", "MSCF", "TZif",
 			// names with all kinds of extensions: the member name never decides
+			// the Gentoo marker name elsewhere than at the end of the first member's name
+			"foo-1.0-1/gpkg-1/metadata.tar.gz", "backup/gpkg-1.2/readme", "cache/gpkg-10", "x/gpkg-1x", "gpkg-1", "/gpkg-1-notes.txt",
 			"appliance.ovf", "disk.ova", "box.ovf", "image.vmdk", "backup.tar", "a.tar.gz", "doc.xml", "data.json", "page.html", "lib.so", "x.class", "Dockerfile", "manifest.mf", "layer.tar", "index.docx", "book.epub", "mimetype"}).Draw(t, "name")
 		shaped := rapid.IntRange(0, 11).Draw(t, "shaped") == 0
 		if shaped {
